@@ -74,3 +74,12 @@ def team_mu(teams):
 
 def in01(x, slack_ulps=4):
     return isinstance(x, (int, float)) and -slack_ulps * 2.3e-16 <= x <= 1 + slack_ulps * 2.3e-16
+
+
+def scribble(res):
+    """what a caller may do with a returned container: edit it in place.  A call that hands out a shared list (a module
+    constant, a cached result) is exposed by the next call that returns the same object."""
+    if isinstance(res, list):
+        for i in range(len(res)):
+            res[i] = -12345.678
+        res.append("scribbled")
